@@ -154,6 +154,7 @@ type vdrRun struct {
 	faultKey    string
 	nFileLaunch int
 	reloc       *vdrReloc
+	knownForks  map[string]bool
 }
 
 type vdrSnapshot struct {
@@ -330,6 +331,9 @@ func (v *vdrRun) checkOutside(key, by string) {
 
 func (v *vdrRun) observe(duringReset bool) {
 	v.checkOutside("C14:outside-touched", "while the pipestance ran")
+	if !duringReset {
+		v.checkNewForks()
+	}
 	tree := lstatTree(v.psdir)
 	seq := len(v.r.Events)
 	var newly []string
@@ -752,6 +756,7 @@ func runVdrSpec(spec *VdrSpec, scratch string) *VdrResult {
 		}
 	}
 	v.buildChecks()
+	v.checkNewForks()
 	to := time.Duration(spec.TimeoutS) * time.Second
 	if to == 0 {
 		to = 40 * time.Second
